@@ -175,12 +175,31 @@ import (
 )
 
 func main() {
+	if len(os.Args) > 4 && os.Args[1] == "-parallel" {
+		var workers, repeat int
+		fmt.Sscan(os.Args[2], &workers)
+		fmt.Sscan(os.Args[3], &repeat)
+		if err := hlib.RunShapeCasesParallel(os.Args[4], os.Stdout, workers, repeat); err != nil {
+			fmt.Fprintln(os.Stderr, err)
+			os.Exit(2)
+		}
+		return
+	}
 	if err := hlib.RunShapeCases(os.Args[1], os.Stdout); err != nil {
 		fmt.Fprintln(os.Stderr, err)
 		os.Exit(2)
 	}
 }
 '''
+
+
+def build_race_runner(setname):
+    """the same runner built with the race detector (needs cgo)"""
+    root = os.path.join(C.WORK, "shapes", setname)
+    out = os.path.join(C.BIN, "run_" + setname + "_race")
+    env = dict(C.GOENV, CGO_ENABLED="1")
+    rc, o, e = C.run(["go", "build", "-race", "-tags", "verif", "-o", out, "./runner"], cwd=root, timeout=1800, env=env)
+    return (out if rc == 0 else None), (o + e)[-800:]
 
 
 def build_parquetgen():
@@ -514,3 +533,26 @@ def enum_values(rng, fields, cap=40, rng_struct=None):
     if len(allv) > cap:
         allv = rs.sample(allv, cap)
     return allv
+
+
+class SrcShape:
+    """A shape given by explicit Go source (decorated / embedded variants); the model view
+    (columns, value tokens) is that of [model], the undecorated shape."""
+
+    def __init__(self, name, go_src_fn, model, desc=""):
+        self.name, self._src, self.model, self.desc = name, go_src_fn, model, desc or model.desc
+
+    def go_source(self, pkg):
+        return self._src(pkg)
+
+    def model_fields(self):
+        return self.model.model_fields()
+
+    def ty_tokens(self):
+        return self.model.ty_tokens()
+
+    def columns(self):
+        return self.model.columns()
+
+    def key(self):
+        return self.model.key() + "|" + self.desc
